@@ -1,7 +1,8 @@
 #!/usr/bin/env python3
 """Prints the markdown table of seeded changes for DESIGN.md section 10 from
 /verif/seeded/*/meta.json and run.log."""
-import glob, json, os, re
+import glob, json, os, re, sys
+COMPACT = "--compact" in sys.argv
 rows = []
 for d in sorted(glob.glob("/verif/seeded/*/")):
     sid = os.path.basename(d.rstrip("/"))
@@ -20,7 +21,14 @@ for d in sorted(glob.glob("/verif/seeded/*/")):
         caught = part + " " + caught
     else:
         caught = "**missed** — " + m.get("confirmed", {}).get("note", "see text below")[:200]
-    rows.append("| %s | %s | %s | %s |" % (sid, summ[:150], needs[:130], caught))
-print("| seeded | change | what it needs | caught by (first violation key, quick tier) |")
-print("|---|---|---|---|")
+    if COMPACT:
+        rows.append("| %s | %s | %s |" % (sid, summ[:170], caught))
+    else:
+        rows.append("| %s | %s | %s | %s |" % (sid, summ, needs, caught))
+if COMPACT:
+    print("| seeded | change (cut; full text in seeded/INDEX.md and meta.json) | caught by (first violation key, quick tier) |")
+    print("|---|---|---|")
+else:
+    print("| seeded | change | what it needs | caught by (first violation key, quick tier) |")
+    print("|---|---|---|---|")
 print("\n".join(rows))
